@@ -281,6 +281,16 @@ def watched(seconds=60):
                 return msg if _FIRED[0] else r
             except Timeout:
                 return msg
+            except Exception as e:
+                # the check's own assumptions about what the library returns did not hold (wrong type, missing
+                # attribute, an exception where none is allowed): that is a finding on this input, not a
+                # harness failure
+                if _FIRED[0]:
+                    return msg
+                import traceback as _tb
+                last = _tb.extract_tb(e.__traceback__)[-1]
+                return "%s: %s: %s while checking this input (at %s:%d)" % (
+                    fn.__name__, type(e).__name__, str(e)[:160], os.path.basename(last.filename), last.lineno)
             finally:
                 signal.alarm(0)
                 signal.signal(signal.SIGALRM, old)
